@@ -150,6 +150,8 @@ func runC16(c *Ctx) {
 	// a reply serialized into storage shared between connections can be overwritten by another
 	// client's reply before it is written: the value a client reads is then one nobody stored
 	ruleReplyBufferLocal(c, "R16.c")
+	// a history is judged on the commands the clients sent: the arguments executed are owned copies of them
+	ruleOwnedBytes(c, "R16.f")
 	// options built in a variable shared by all connections: another client's command can
 	// replace them between their assignment and the handler call
 	ruleNoSharedCapture(c, "R16.d")
